@@ -120,19 +120,19 @@ def run(ctx):
               'interleaving of the ticket CAS steps and every arrival\'s start node from VERIF_SEED; the extracted model replays '
               'it; non-trivial = expected >= 2 and >= 2 threads in the first phase; distinct = distinct (input, schedule). '
               'DIFF (latch, sequential programs). RUNTIME: barrier 2..12 participants on 4 workers, 3..145 phases, drops; latch '
-              'with 1..8 waiters; call_once with 0..2 throwing runs; event with late waiters; F12 scenario: >= 3000 trials.')
+              'with 1..8 waiters; call_once with 0..2 throwing runs; event with late waiters; stale wake-up scenario (F12): 4500 trials (latch::wait, latch::arrive_and_wait, event::wait after a notified timed wait).')
     ctx.build_pika()
     drv = ctx.build_model('C09', 'ExtractC09.v', 'drv_c09.ml')
     h_tree = ctx.build_harness('c09_tree', 'c09_tree.cpp')
     h_rt = ctx.build_harness('c09_rt', 'c09_rt.cpp')
     if ctx.tier == 'quick':
         run_tree(ctx, r, drv, h_tree, ctx.seed, 400)
-        run_rt(ctx, r, drv, h_rt, ctx.seed, 1, 3000)
+        run_rt(ctx, r, drv, h_rt, ctx.seed, 1, 4500)
     else:
         for k in range(4):
             run_tree(ctx, r, drv, h_tree, ctx.seed + 1000 * k, 1500)
         for k in range(3):
-            run_rt(ctx, r, drv, h_rt, ctx.seed + 1000 * k, 3, 8000)
+            run_rt(ctx, r, drv, h_rt, ctx.seed + 1000 * k, 3, 9000)
     r.notes.append('F12 (latch::wait / arrive_and_wait returning early after a notified timed wait) is repaired in the tree; the '
                    'latch_f12 monitor reports it again when the repair is reverted (about 4% of the trials on the original code)')
     return r
